@@ -670,10 +670,10 @@ class Exec:
         if isinstance(t, ast.Subscript):
             a = self.ev(t.value, env)
             idx = self.ev_index(t.slice, env)
-            if isinstance(a, dict):
-                a[idx] = v
-                return
-            if isinstance(a, list):
+            if isinstance(a, (dict, list)):
+                if any(a is mv for mv in self.modcache.values()):
+                    # a module-level container is being written: hidden state that survives the call
+                    self.event('module_state_write', [k for k, mv in self.modcache.items() if mv is a][0], self.where())
                 a[idx] = v
                 return
             if isinstance(a, np.ndarray):
